@@ -390,3 +390,60 @@ Proof.
   cbn [Nat.add]. destruct (Collapse.proc true rt (fun _ e c => s e c) c2 true (S (S (span c1))) 0) as [b2 a2].
   simpl. reflexivity.
 Qed.
+
+(** removeRoot = true on a rooted tree when a root branch IS contracted: no two branches of the result
+    share a bipartition any more, so [usplits] of the result lists one split per branch, each with
+    the length and support of that branch (nothing is merged) *)
+Theorem rooted_rr_usplits s n cm e1 c1 e2 c2 :
+  wf (UNode n cm [Some (e1, c1); Some (e2, c2)]) = true ->
+  no_single (UNode n cm [Some (e1, c1); Some (e2, c2)]) = true ->
+  NoDup (leaves (UNode n cm [Some (e1, c1); Some (e2, c2)])) ->
+  is_tip c1 = false \/ is_tip c2 = false ->
+  stays s (e1, c1) = false \/ stays s (e2, c2) = false ->
+  let t := UNode n cm [Some (e1, c1); Some (e2, c2)] in
+  let g := remove_edges true false (fun _ e c => s e c) t in
+  usplits g = map (csplit (tipset t)) (branches g) /\
+  veq (map view (branches g)) (map view (filter (stays s) (branches t))).
+Proof.
+  intros Hw Hs Hn Hi Hst t g.
+  assert (HV : veq (map view (branches g)) (map view (filter (stays s) (branches t)))).
+  { unfold g. generalize (remove_edges_exact false s t Hw).
+    rewrite (map_ext (view_adj false s) view (view_adj_false s)). auto. }
+  split; auto.
+  assert (HL : Permutation (leaves g) (leaves t)) by (unfold g; now apply remove_edges_leaves).
+  assert (HA : tipset g = tipset t) by (apply tipset_perm; auto).
+  set (A := tipset t) in *.
+  set (keyv := fun v : einfo * list string => canon_side A (sset (snd v))).
+  assert (Hkv : forall x y, vrel x y -> keyv x = keyv y).
+  { intros x y [_ P]. unfold keyv. now rewrite (sset_perm _ _ P). }
+  generalize (rooted_keys_nodup n cm e1 e2 c1 c2 Hw Hs Hn Hi). fold t. fold A. intros Nt.
+  generalize (root_key_shared n cm e1 e2 c1 c2 Hw Hs Hn Hi). fold t. fold A. cbv beta. simpl snd. intros Ek.
+  assert (NF : NoDup (map (keyA A) (filter (stays s) (branches t)))).
+  { unfold t. rewrite branches_unfold, !brs_cons_some. change (brs []) with (@nil (einfo * utree)). rewrite app_nil_r.
+    simpl map in Nt. inversion Nt as [|? ? N1 N2]; subst. rewrite map_app in N1, N2.
+    assert (F1 : NoDup (map (keyA A) (filter (stays s) (branches c1)))) by (apply NoDup_map_filter'; now apply NoDup_app_l in N2).
+    assert (F2 : NoDup (map (keyA A) (filter (stays s) (branches c2)))) by (apply NoDup_map_filter'; now apply NoDup_app_r in N2).
+    assert (D12 : forall x, In x (map (keyA A) (filter (stays s) (branches c1))) -> In x (map (keyA A) (filter (stays s) (branches c2))) -> False).
+    { intros x X1 X2. apply (NoDup_app_disjoint _ _ x N2).
+      - apply in_map_iff in X1. destruct X1 as [p [E Hp]]. apply filter_In in Hp. apply in_map_iff. exists p. tauto.
+      - apply in_map_iff in X2. destruct X2 as [p [E Hp]]. apply filter_In in Hp. apply in_map_iff. exists p. tauto. }
+    assert (K0out : forall x, In x (map (keyA A) (filter (stays s) (branches c1)) ++ map (keyA A) (filter (stays s) (branches c2))) ->
+                              x <> canon_side A (sset (leaves c1))).
+    { intros x Hx E. apply N1. rewrite <- E. apply in_app_or in Hx. apply in_or_app.
+      destruct Hx as [Hx|Hx]; [left|right]; apply in_map_iff in Hx; destruct Hx as [p [E' Hp]]; apply filter_In in Hp;
+        apply in_map_iff; exists p; tauto. }
+    simpl filter. rewrite filter_app. simpl filter.
+    destruct (stays s (e1, c1)) eqn:S1, (stays s (e2, c2)) eqn:S2.
+    - destruct Hst; discriminate.
+    - simpl map. rewrite map_app. constructor.
+      + intros Hx. apply (K0out _ Hx). reflexivity.
+      + apply NoDup_app_intro; auto.
+    - rewrite map_app. simpl map. eapply Permutation_NoDup; [apply Permutation_middle|]. constructor.
+      + rewrite <- Ek. intros Hx. apply (K0out _ Hx). reflexivity.
+      + apply NoDup_app_intro; auto.
+    - rewrite map_app. apply NoDup_app_intro; auto. }
+  assert (Ng : NoDup (map (keyA A) (branches g))).
+  { generalize (PermR_map_perm vrel keyv _ _ Hkv HV). rewrite !map_map. intros P.
+    eapply Permutation_NoDup; [symmetry; exact P|exact NF]. }
+  rewrite <- HA. apply usplits_of_nodup. rewrite HA. exact Ng.
+Qed.
